@@ -43,10 +43,18 @@ def snapshot_globals():
                                                    for kk, vv in v.items()}
                 else:
                     snap[f"{mod.__name__}.{k}"] = copy.deepcopy(v)
-    for cls in (B.InstructionBuilder, RB.RIMIShadowStackInstructionBuilder, RB.RIMIFullInstructionBuilder):
+    import gigue.fixer.fixer_builder as FB
+    import gigue.method, gigue.pic, gigue.trampoline, gigue.generator, gigue.instructions
+    extra_cls = [B.InstructionBuilder, RB.RIMIShadowStackInstructionBuilder, RB.RIMIFullInstructionBuilder,
+                 FB.FIXERInstructionBuilder, gigue.method.Method, gigue.pic.PIC, gigue.trampoline.Trampoline,
+                 gigue.instructions.Instruction, gigue.instructions.RoCCCustomInstruction] + list(classes().values())
+    for cls in extra_cls:
         for k, v in vars(cls).items():
-            if isinstance(v, (list, dict)):
-                snap[f"{cls.__name__}.{k}"] = copy.deepcopy(v)
+            if k.startswith("__") or callable(v) or isinstance(v, (classmethod, staticmethod, property)):
+                continue
+            if isinstance(v, (list, dict, int, str, float, tuple, set)):
+                snap[f"{cls.__name__}.{k}"] = copy.deepcopy(v) if not isinstance(v, dict) or not v or isinstance(
+                    next(iter(v.values())), (int, str)) else sorted(v)
     for name, cls in classes().items():
         sig = inspect.signature(cls.__init__)
         for pn, p in sig.parameters.items():
@@ -98,8 +106,8 @@ def extremes(params):
                 return v
             if occ is not None and args["mu"] == params["occ_mean"] and args["sigma"] == params["occ_std"]:
                 return occ
-        if kind == "RI" and maxoff and args["a"] == 0 and args["b"] == min(params["data_size"] - 8, 0x7FF):
-            return args["b"]
+        if kind == "RI" and maxoff and args["a"] == 0 and args["b"] not in (0xFFF, 0xFFFFFFFF):
+            return args["b"]            # whatever upper bound the builder asked for
         return None
     return p
 
@@ -122,7 +130,7 @@ def mem_heavy(params):
     def p(kind, args, pos):
         if kind == "CS" and args["n"] == 7 and args["k"] == 1:
             return [5 + (pos % 2)]
-        if kind == "RI" and args["a"] == 0 and args["b"] == min(params["data_size"] - 8, 0x7FF):
+        if kind == "RI" and args["a"] == 0 and args["b"] not in (0xFFF, 0xFFFFFFFF):
             return args["b"] if pos % 3 else 0
         return None
     return p
@@ -152,6 +160,16 @@ def run_job(job, cwd_bin):
         if job.get("seed_first", False):
             random.seed(job["seed"])
         gen = cls(**kw)
+        # a decoy generator constructed (never run) between construction and main: constructing must be pure
+        dk = dict(kw, data_reg=30 if kw.get("data_reg") != 30 else 29, pics_hit_case_reg=7, pics_cmp_reg=10)
+        if job["variant"] in ("rimiss", "rimifull"):
+            dk["rimi_ssp_reg"] = 29
+        if job["variant"] == "fixer":
+            dk["fixer_cmp_reg"] = 29
+        try:
+            cls(**dk)
+        except Exception:  # noqa
+            pass
         if job.get("seed") is not None and not job.get("seed_first", False):
             random.seed(job["seed"])
         gen.main()
